@@ -29,6 +29,7 @@ type lcPlan struct {
 	postAct int  // >= 0 action, -1 error
 	pay     int  // payload kind of the values prep / exec / fallback return (see payload)
 	sameErr bool // every failing attempt returns the SAME error value
+	execPay int  // > 0: payload kind of what exec / the fallback return, when it differs from prep's (pay)
 }
 
 // payload kinds: 0 opaque token, 1 nil, 2 a non-error Result holding a token, 3 a Result
@@ -70,6 +71,13 @@ func (b *sb) payload(kind int) Val {
 	return b.tok()
 }
 
+func (p lcPlan) xpay() int {
+	if p.execPay > 0 {
+		return p.execPay
+	}
+	return p.pay
+}
+
 func (b *sb) lifecycle(x int, d NodeDef, p lcPlan) {
 	if d.Prep != "absent" {
 		if p.prepErr {
@@ -93,7 +101,7 @@ func (b *sb) lifecycle(x int, d NodeDef, p lcPlan) {
 				rs = append(rs, rErr(e))
 			}
 			if p.k > 0 {
-				rs = append(rs, rOk(b.payload(p.pay)))
+				rs = append(rs, rOk(b.payload(p.xpay())))
 				b.script(x, "exec", 0, rs, rOk(b.tok()))
 			} else {
 				b.script(x, "exec", 0, rs, rErr(e))
@@ -102,7 +110,7 @@ func (b *sb) lifecycle(x int, d NodeDef, p lcPlan) {
 			for i := 1; i < p.k; i++ {
 				rs = append(rs, rErr(b.errID()))
 			}
-			rs = append(rs, rOk(b.payload(p.pay)))
+			rs = append(rs, rOk(b.payload(p.xpay())))
 			b.script(x, "exec", 0, rs, rOk(b.tok()))
 		} else {
 			for i := 0; i < p.extra; i++ {
@@ -113,7 +121,7 @@ func (b *sb) lifecycle(x int, d NodeDef, p lcPlan) {
 	}
 	if d.Fb == "user" {
 		if p.fbOK {
-			b.script(x, "fb", 0, []Resp{rOk(b.payload(p.pay))}, rOk(b.tok()))
+			b.script(x, "fb", 0, []Resp{rOk(b.payload(p.xpay()))}, rOk(b.tok()))
 		} else {
 			b.script(x, "fb", 0, []Resp{rErr(b.errID())}, rErr(b.errID()))
 		}
@@ -913,6 +921,13 @@ func genC17(r *rng, tier string, st *stats) []taggedScen {
 							plans := []lcPlan{{k: 1, postAct: 5, pay: pay}, {k: 2, postAct: 5, pay: pay}}
 							if fb == "user" {
 								plans = append(plans, lcPlan{k: 0, extra: 3, fbOK: true, postAct: 5, pay: pay})
+							}
+							if pay != 1 {
+								// prep hands over a value, exec (or the fallback) returns nil: post must see nil, not prep's value
+								plans = append(plans, lcPlan{k: 1, postAct: 5, pay: pay, execPay: 1})
+								if fb == "user" {
+									plans = append(plans, lcPlan{k: 0, extra: 3, fbOK: true, postAct: 5, pay: pay, execPay: 1})
+								}
 							}
 							for pi, p := range plans {
 								inFlow := (pay+pi+ii)%2 == 0
